@@ -43,6 +43,14 @@ def run(ctx, chk):
                   "mutating calls on data: %s" % cs, raw.where("append", "Storage"))
     from ..symeval import SymEval, Hooks, NONE, Panic as SPanic
 
+    def uncast(v):
+        """index conversions between the token's Index type and usize are value-preserving (the width of Index is checked separately)"""
+        while isinstance(v, tuple) and v and v[0] == "as" and v[2] in ("Index", "usize", "u32", "u64"):
+            v = v[1]
+        if isinstance(v, tuple):
+            return tuple(uncast(x) for x in v)
+        return v
+
     class SH(Hooks):
         def __init__(self, found=None):
             self.pushes = []
@@ -94,7 +102,7 @@ def run(ctx, chk):
     try:
         h = SH()
         r = SymEval(h, "Storage::append").run(f, {f["sig"]["params"][1][0]: ("sym", "VALUE")})
-        good = r == ("token_of", ("len_after_pushes", 0)) and h.pushes == [("sym", "VALUE")]
+        good = uncast(r) == ("token_of", ("len_after_pushes", 0)) and h.pushes == [("sym", "VALUE")]
         chk.check(R, good, "append:index-before-push", "append returns %s after pushing %s (expected the length read before exactly one push of the value)" % (r, h.pushes), W_,
                   sample=str(r))
     except Anchor as ex:
@@ -105,7 +113,7 @@ def run(ctx, chk):
             h = SH(found)
             r = SymEval(h, "Storage::fetch_or_append").run(f, {f["sig"]["params"][1][0]: ("sym", "VALUE")})
             want = ("token_of", ("sym", "FIRST_EQUAL_POSITION")) if found else ("appended", ("sym", "VALUE"))
-            chk.check(R, r == want and not h.pushes, "fetch_or_append(%s)" % ("an equal element exists" if found else "no equal element"),
+            chk.check(R, uncast(r) == want and not h.pushes, "fetch_or_append(%s)" % ("an equal element exists" if found else "no equal element"),
                       "yields %s (pushes %s), expected %s" % (r, h.pushes, want), raw.where("fetch_or_append", "Storage"), key="C19:fetch_or_append:%s" % found)
         except Anchor as ex:
             chk.bad(R, "fetch_or_append(%s)" % found, "not analysable: %s" % ex, raw.where("fetch_or_append", "Storage"), key="C19:fetch_or_append:%s" % found)
@@ -117,7 +125,7 @@ def run(ctx, chk):
         if fi:
             try:
                 r = SymEval(SH(), "Storage::index").run(fi[0], {fi[0]["sig"]["params"][1][0]: ("token",)})
-                good = r == ("element_at", ("sym", "TOKEN_INDEX"))
+                good = uncast(r) == ("element_at", ("sym", "TOKEN_INDEX"))
                 why = "index yields %s" % (r,)
             except Anchor as ex:
                 why = "not analysable: %s" % ex
